@@ -11,6 +11,8 @@ Each is a contradiction between what an expression can hold and how it is used, 
   UNITGUESS  if <input> >= C: <input> = k * <input>: the unit of an input is guessed from its size (discontinuous; breaks inverses)
   TYPEERASE  f(str(x)) where f branches on isinstance(param, str): the conversion erases the distinction the callee draws
   ARGSWAP  f(a, b) where the callee's parameters are named (b, a): swapped positional arguments
+  MUTDEF   a mutable default argument changed in place;  FINDSPAN  a matched group located again by text search (first occurrence);
+  ENVDEP   a call that reads the working directory / environment of the process
   CONCAT   in a collection display of string constants, an element written as two adjacent literals (a missing comma): two members
            silently become one
 """
@@ -182,6 +184,15 @@ def concat(mod):
     if not adj:
         return out
     for n in ast.walk(mod.tree):
+        if isinstance(n, ast.Compare) and len(n.ops) == 1 and isinstance(n.ops[0], (ast.In, ast.NotIn)) \
+                and isinstance(n.comparators[0], ast.Constant) and isinstance(n.comparators[0].value, str):
+            e = n.comparators[0]
+            inside = [p for p in adj if (e.lineno, e.col_offset) < p <= (e.end_lineno, e.end_col_offset)]
+            if inside:
+                out.append(('CONCAT', e.lineno,
+                            '`%s` tests membership in %r, a single string made of adjacent literals (a missing comma in what was meant as a '
+                            'collection): `in` is a substring test here, so every substring of it is a member' % (unparse(n)[:60], e.value),
+                            'membership in concatenated %r' % e.value))
         if isinstance(n, (ast.Tuple, ast.List, ast.Set)) and len(n.elts) >= 3 and all(
                 isinstance(e, ast.Constant) and isinstance(e.value, str) for e in n.elts):
             for e in n.elts:
@@ -207,6 +218,14 @@ def typeerase(fn, fn_index):
                 and not isinstance(a.args[0], ast.Constant)
             conv = conv or (isinstance(a, ast.BinOp) and isinstance(a.op, ast.Mod) and isinstance(a.left, ast.Constant) and a.left.value in ('%s', '%r'))
             conv = conv or isinstance(a, ast.JoinedStr)
+            if not conv and isinstance(a, ast.Name):
+                # the name was re-bound to its own text form earlier in the caller:  x = str(x)
+                for r_ in ast.walk(fn):
+                    if isinstance(r_, ast.Assign) and r_.lineno < c.lineno and len(r_.targets) == 1 and isinstance(r_.targets[0], ast.Name) \
+                            and r_.targets[0].id == a.id and isinstance(r_.value, ast.Call) and isinstance(r_.value.func, ast.Name) \
+                            and r_.value.func.id in ('str', 'repr') and r_.value.args and isinstance(r_.value.args[0], ast.Name) \
+                            and r_.value.args[0].id == a.id:
+                        conv = True
             if not conv or i >= len(cparams):
                 continue
             p_ = cparams[i]
@@ -251,6 +270,112 @@ def argswap(fn, fn_index, method_index):
     return out
 
 
+def mutdef(fn):
+    """a parameter with a mutable default ([] / {} / set()) that the function changes in place: the default object is shared by
+    every call that omits the argument"""
+    out = []
+    a = fn.args
+    pos = a.args
+    defaults = dict(zip([x.arg for x in pos[len(pos) - len(a.defaults):]], a.defaults))
+    defaults.update({k.arg: v for k, v in zip(a.kwonlyargs, a.kw_defaults) if v is not None})
+    mut = {n for n, v in defaults.items() if isinstance(v, (ast.List, ast.Dict, ast.Set)) or (
+        isinstance(v, ast.Call) and isinstance(v.func, ast.Name) and v.func.id in ('list', 'dict', 'set'))}
+    if not mut:
+        return out
+    # a parameter re-bound before use (x = list(x) / x = x or []) is a fresh object from then on
+    rebound = {t.id: n.lineno for n in ast.walk(fn) if isinstance(n, ast.Assign) for t in n.targets if isinstance(t, ast.Name) and t.id in mut}
+    for n in ast.walk(fn):
+        name = None
+        if isinstance(n, ast.AugAssign) and isinstance(n.target, ast.Name) and n.target.id in mut:
+            name, what = n.target.id, unparse(n)
+        elif isinstance(n, ast.Call) and isinstance(n.func, ast.Attribute) and isinstance(n.func.value, ast.Name) and n.func.value.id in mut \
+                and n.func.attr in ('append', 'extend', 'insert', 'pop', 'remove', 'clear', 'sort', 'reverse', 'update', 'setdefault', 'add', 'discard', 'popitem'):
+            name, what = n.func.value.id, unparse(n)
+        elif isinstance(n, (ast.Assign, ast.Delete)):
+            for t in n.targets:
+                if isinstance(t, ast.Subscript) and isinstance(t.value, ast.Name) and t.value.id in mut:
+                    name, what = t.value.id, unparse(n)
+        if name:
+            # an insertion guarded by `x not in param` is idempotent: the default settles after the first call
+            c_, p_ = n, getattr(n, '_parent', None)
+            idem = False
+            while p_ is not None and p_ is not fn:
+                if isinstance(p_, ast.If) and isinstance(p_.test, ast.Compare) and len(p_.test.ops) == 1 and isinstance(p_.test.ops[0], ast.NotIn) \
+                        and isinstance(p_.test.comparators[0], ast.Name) and p_.test.comparators[0].id == name \
+                        and isinstance(n, ast.Call) and any(unparse(a_) == unparse(p_.test.left) for a_ in n.args):
+                    idem = True
+                c_, p_ = p_, getattr(p_, '_parent', None)
+            if idem:
+                continue
+        if name and not (name in rebound and rebound[name] < n.lineno):
+            out.append(('MUTDEF', n.lineno,
+                        'the parameter `%s` defaults to a mutable object and `%s` changes it in place: the default is created once, so what one call '
+                        'adds is still there in the next call that omits the argument' % (name, what[:60]), 'mutable default %s changed in place' % name))
+    return out
+
+
+def findspan(fn):
+    """x.find(g) / x.index(g) where g is the text of a group of a match on x: the position of a matched group is m.span(k); a text
+    search finds the first occurrence of the same characters, which may be an earlier place"""
+    out = []
+    grp = set()
+    for n in ast.walk(fn):
+        if isinstance(n, ast.For) and isinstance(n.iter, ast.Call) and isinstance(n.iter.func, ast.Attribute) and n.iter.func.attr == 'items' \
+                and isinstance(n.iter.func.value, ast.Call) and isinstance(n.iter.func.value.func, ast.Attribute) and n.iter.func.value.func.attr == 'groupdict' \
+                and isinstance(n.target, ast.Tuple) and len(n.target.elts) == 2 and isinstance(n.target.elts[1], ast.Name):
+            grp.add(n.target.elts[1].id)
+        if isinstance(n, ast.Assign) and len(n.targets) == 1 and isinstance(n.targets[0], ast.Name):
+            v = n.value
+            if isinstance(v, ast.Call) and isinstance(v.func, ast.Attribute) and v.func.attr == 'group':
+                grp.add(n.targets[0].id)
+    # one step of derivation: s = v.strip()
+    for _ in range(2):
+        for n in ast.walk(fn):
+            if isinstance(n, ast.Assign) and len(n.targets) == 1 and isinstance(n.targets[0], ast.Name) and isinstance(n.value, ast.Call) \
+                    and isinstance(n.value.func, ast.Attribute) and isinstance(n.value.func.value, ast.Name) and n.value.func.value.id in grp \
+                    and n.value.func.attr in ('strip', 'lstrip', 'rstrip', 'upper', 'lower'):
+                grp.add(n.targets[0].id)
+    for n in ast.walk(fn):
+        if isinstance(n, ast.Call) and isinstance(n.func, ast.Attribute) and n.func.attr in ('find', 'index', 'rfind', 'rindex') and n.args \
+                and isinstance(n.args[0], ast.Name) and n.args[0].id in grp:
+            out.append(('FINDSPAN', n.lineno,
+                        '`%s` searches the subject for the text of a matched group: the search returns the first place where those characters occur, '
+                        'which is an earlier place whenever the same text occurs twice; the position of the group is the span the match reports'
+                        % unparse(n), 'group text located by %s()' % n.func.attr))
+    return out
+
+
+ENV_CALLS = {'getcwd', 'getcwdb', 'chdir', 'abspath', 'realpath', 'absolute', 'resolve', 'cwd', 'expanduser', 'getenv'}
+
+
+def envdep(fn):
+    """calls whose result depends on process-wide mutable environment (working directory, environment variables)"""
+    out = []
+    for n in ast.walk(fn):
+        if isinstance(n, ast.Call) and isinstance(n.func, ast.Attribute) and n.func.attr in ENV_CALLS:
+            base = unparse(n.func.value)
+            if n.func.attr in ('abspath', 'realpath') and n.args and isinstance(n.args[0], ast.Name) and n.args[0].id == '__file__':
+                continue
+            # making absolute a path that was just found to exist relative to the working directory is the caller's explicit choice
+            arg0 = unparse(n.args[0]) if n.args else base
+            found = False
+            c_, p_ = n, getattr(n, '_parent', None)
+            while p_ is not None and p_ is not fn:
+                if isinstance(p_, ast.If) and any(c_ is s_ or any(c_ is y for y in ast.walk(s_)) for s_ in p_.body):
+                    for t_ in ast.walk(p_.test):
+                        if isinstance(t_, ast.Call) and isinstance(t_.func, ast.Attribute) and t_.func.attr in ('isfile', 'exists', 'isdir', 'is_file') \
+                                and ((t_.args and unparse(t_.args[0]) == arg0) or unparse(t_.func.value) == arg0):
+                            found = True
+                c_, p_ = p_, getattr(p_, '_parent', None)
+            if found:
+                continue
+            if n.func.attr in ('absolute', 'resolve', 'cwd', 'expanduser') or base.split('.')[0] in ('os', 'Path', 'pathlib'):
+                out.append(('ENVDEP', n.lineno,
+                            '`%s` depends on the working directory / environment of the process at the time of the call: the same arguments give '
+                            'another answer after an os.chdir()' % unparse(n)[:60], '%s()' % n.func.attr))
+    return out
+
+
 def scan(repo, scope):
     """[(rel, qualname or '<module>', rule, lineno, message, key)] over the functions of `scope` and the module level of their files"""
     out = []
@@ -275,7 +400,7 @@ def scan(repo, scope):
         fns = [(q, mod.functions[q]) for q in sorted(qs) if q in mod.functions]
         for q, fn in fns:
             n_fn += 1
-            for rule, line, msg, key in idx0(fn) + stale(fn) + unitguess(fn) + typeerase(fn, fn_index) + argswap(fn, fn_index, method_index):
+            for rule, line, msg, key in idx0(fn) + stale(fn) + unitguess(fn) + typeerase(fn, fn_index) + argswap(fn, fn_index, method_index) + mutdef(fn) + findspan(fn) + envdep(fn):
                 out.append((rel, q, rule, line, msg, key))
         for q, rule, line, msg, key in oneshot(mod, fns):
             out.append((rel, q, rule, line, msg, key))
